@@ -3,95 +3,9 @@
 import math
 from engine import Prop, fbits, bitsf, err_kind
 
-# ------------------------------------------------------------------------------------------
-# independent oracle: textbook WGS84 (a, f), nothing taken from tracklib
-# ------------------------------------------------------------------------------------------
-A = 6378137.0
-F = 1.0 / 298.257223563
-E2 = F * (2.0 - F)
-
-TOL_DEG = 1e-9      # the property's bounds
-TOL_M = 1e-3
-
-
-def o_g2e(g):
-    """geodetic (deg, deg, m) -> ECEF, closed-form WGS84"""
-    lon, lat, h = math.radians(g[0]), math.radians(g[1]), g[2]
-    s, c = math.sin(lat), math.cos(lat)
-    N = A / math.sqrt(1.0 - E2 * s * s)
-    return [(N + h) * c * math.cos(lon), (N + h) * c * math.sin(lon), (N * (1.0 - E2) + h) * s]
-
-
-def o_e2g(p):
-    """ECEF -> geodetic by the classical latitude iteration run to convergence (not Bowring's closed form)"""
-    X, Y, Z = p
-    lon = math.atan2(Y, X)
-    r = math.hypot(X, Y)
-    lat = math.atan2(Z, r * (1.0 - E2))
-    h = 0.0
-    for _ in range(30):
-        s = math.sin(lat)
-        N = A / math.sqrt(1.0 - E2 * s * s)
-        # numerically stable height whatever the latitude
-        h = r * math.cos(lat) + Z * s - A * A / N
-        new = math.atan2(Z, r * (1.0 - E2 * N / (N + h)))
-        if abs(new - lat) < 1e-17:
-            lat = new
-            break
-        lat = new
-    return [math.degrees(lon), math.degrees(lat), h]
-
-
-def dlon(a, b):
-    d = (a - b) % 360.0
-    return min(d, 360.0 - d)
-
-
-def geo_diff(a, b):
-    """None if two geodetic positions agree within the property's bounds, else text"""
-    if not all(math.isfinite(v) for v in a):
-        return "non-finite %s" % (a,)
-    if dlon(a[0], b[0]) > TOL_DEG or abs(a[1] - b[1]) > TOL_DEG:
-        return "angles differ by (%.3g, %.3g) deg" % (dlon(a[0], b[0]), abs(a[1] - b[1]))
-    if abs(a[2] - b[2]) > TOL_M:
-        return "height differs by %.3g m" % abs(a[2] - b[2])
-    return None
-
-
-def m_diff(a, b):
-    if not all(math.isfinite(v) for v in a):
-        return "non-finite %s" % (a,)
-    d = math.sqrt(sum((x - y) ** 2 for x, y in zip(a, b)))
-    return None if d <= TOL_M else "differs by %.3g m" % d
-
-
-def base_geo(b):
-    """true geodetic position of a base token ["G"|"E", x, y, z]"""
-    return list(b[1:]) if b[0] == "G" else o_e2g(b[1:])
-
-
-def close_geo(a, b):   # correspondence tolerance (model vs implementation)
-    return all(_c(x, y, 1e-10) for x, y in zip(a[:2], b[:2])) and _cm(a[2], b[2])
-
-
-def _c(x, y, tol):
-    if x != x or y != y:
-        return x != x and y != y
-    if math.isinf(x) or math.isinf(y):
-        return x == y
-    return abs(x - y) <= tol
-
-
-def _cm(x, y):
-    if x != x or y != y:
-        return x != x and y != y
-    if math.isinf(x) or math.isinf(y):
-        return x == y
-    return abs(x - y) <= 1e-9 * max(1.0, abs(x), abs(y))
-
-
-def close_m(a, b):
-    return all(_cm(x, y) for x, y in zip(a, b))
+from props.geo14 import (A, F, E2, TOL_DEG, TOL_M, o_g2e, o_e2g, dlon, geo_diff, m_diff, base_geo, close_geo, close_m,
+                         _c, _cm)
+from props import c14hist as H
 
 
 PT_FIELDS = [("ecef", "m"), ("geo2", "g"), ("enu", "m"), ("geo3", "g"), ("enuE", "m"), ("ecef2", "m"),
@@ -199,14 +113,27 @@ class P(Prop):
         (M, "TV.C14.track_round_trip", "whole-track ECEF->ENU->ECEF is the identity; Geo->ENU->ECEF/Geo through the recorded GeoCoords base equals the direct conversion"),
         (M, "TV.C14.lambert_loop_structure", "Lambert-93 forward then inverse: longitude and isometric latitude exact; the original latitude is a fixed point of the loop body, which is a contraction (factor <= 0.007)"),
         (M, "TV.C14.lambert_round_trip", "Lambert-93 forward then inverse returns lon and z exactly and lat within (E^2/(1-E^2))^11 |lat| < 1e-20 degree, for lon, lat in (-90, 90) degrees"),
+        (M, "TV.C14.geo_ecef_geo_residual", "every height: Geo->ECEF->Geo returns lon exactly and lat, h as explicit functions (Bowring as coded) of the meridian-plane coordinates, independent of lon = the function the resid stream bounds on a grid; exact height whenever the latitude is exact; zero residual at h = 0"),
+        (M, "TV.C14.geo_enu_geo_residual", "every height, every base: Geo->ENU->Geo returns lon exactly and the same two residual functions of (lat, h); the base does not enter"),
+        (M, "TV.C14.history_frame", "no step of a history other than an in-place update changes an existing object (conversions leave argument and base alone); an update changes one coordinate of one object"),
+        (M, "TV.C14.call_current_values", "a conversion called on heap objects returns the pure conversion of the values point and base(s) hold in the world of the call; same-class conversions return a copy"),
+        (M, "TV.C14.update_then_convert", "base object updated in place, then used again: the conversion is about the updated base"),
+        (M, "TV.C14.alias_base_is_origin", "b.toENUCoords(b) with the same object as point and base is (0,0,0) (GeoCoords or ECEFCoords)"),
+        (M, "TV.C14.track_heap_simulation", "heap-level Track.toENU/toGeo/toECEF/toProj/toENUIfNeeded (getSRID, default base, per-position dispatch, rebinding, Track.base) simulate the pure Track model of T8/T9, errors included"),
+        (M, "TV.C14.track_enu_if_needed", "Track.toENUCoordsIfNeeded on a Geo track is toENUCoords() with the first observation as base; any other track is left alone"),
+        (M, "TV.C14.track_enu_rebinds_fresh", "after Track.toENUCoords the positions and Track.base are new objects (the recorded base is a copy, never the caller's object); older objects untouched"),
+        (M, "TV.C14.track_round_trip_survives_update", "Geo track -> ENU(b) -> caller updates any older object (b included) -> toGeoCoords(): succeeds, positions are their Geo->ECEF->Geo images, Track.base is b as it was"),
     ]
     partial = [
-        "geo_ecef_geo_partial / geo_enu_geo_partial: proved for h = 0 (and the longitude for every h, lon_recovered); missing: latitude and height "
-        "for h != 0, where ECEFCoords.toGeoCoords (Bowring, one step) is an approximation with no exact identity (about 1.3e-6 m at 10 km)",
+        "geo_ecef_geo_partial / geo_enu_geo_partial: exact round trip proved for h = 0. For h != 0 (geo_ecef_geo_residual, geo_enu_geo_residual) the "
+        "longitude is exact and latitude/height are reduced to two explicit functions of (lat, h) alone (any longitude, any base); missing: an analytic "
+        "bound on these residual functions (Bowring's one-step formula is an approximation, about 2e-13 rad / 1.3e-6 m at 10 km): bounded numerically "
+        "on the (lat, h) grid of the resid stream",
     ]
     open_statements = [
-        "|lat' - lat| <= 1e-9 deg and |h' - h| <= 1 mm for Geo->ECEF->Geo with -1000 <= h <= 10000, h != 0 (needs verified interval analysis of "
-        "sin, cos, atan2, sqrt): covered by correspondence + transfer only",
+        "|bowringLat(p(lat,h), z(lat,h)) - lat| <= 1e-9 deg and |bowringHgt - h| <= 1 mm for |lat| <= 89.9, -1000 <= h <= 10000, h != 0 (needs second-order "
+        "control of atan2 compositions): evaluated on a grid (0.5 deg x 500 m in quick, 0.02 deg x 50 m in thorough, shifted by the seed) by model and "
+        "implementation, valid for every longitude and base by geo_ecef_geo_residual / geo_enu_geo_residual",
         "Lambert-93 inverse then forward (XY -> Geo -> XY) within 1 mm: follows over the reals from lambert_round_trip only for XY in the image of the forward map; sampled by the transfer check",
         "IEEE rounding of every formula (theorems are over the reals): transfer only",
         "whole-track round trip through the recorded base when the base was given as ECEFCoords: false as an exact statement (the recorded "
@@ -215,8 +142,12 @@ class P(Prop):
     modelled = ("obs_coords.py: GeoCoords.toECEFCoords/toENUCoords (STANDARD_PROJ == 1 branch)/toProjCoords, ECEFCoords.toGeoCoords/"
                 "toENUCoords, ENUCoords.toECEFCoords/toGeoCoords/toENUCoords, _proj/_unproj dispatch, _projToLambert93, "
                 "__projFromLambert93 (10 fixed-point passes), constants Re Fe; track.py: Track.toECEFCoords/toENUCoords/"
-                "toGeoCoords/toProjCoords (which base is used and recorded, error branches). Not modelled: _projFromUTM, "
-                "the STANDARD_PROJ == 2 stereographic test branch, plotting.")
+                "toGeoCoords/toProjCoords (which base is used and recorded, error branches). Model/GeoHeap.lean: the same methods on a heap of "
+                "mutable objects: GeoCoords/ENUCoords/ECEFCoords instances with setX/setY/setZ and attribute assignment, the dynamic "
+                "dispatch obj.to{ECEF,ENU,Geo,Proj}Coords(*args) with its TypeError/AttributeError/exit branches, copy semantics of "
+                "same-class conversions, Track(obs, base=...) sharing its position and base objects, Track.getSRID() (class of the first "
+                "position), Track.to*Coords and Track.toENUCoordsIfNeeded rebinding positions and Track.base to new objects. Not modelled: _projFromUTM, "
+                "the STANDARD_PROJ == 2 stereographic test branch, the state a raising whole-track conversion leaves behind, plotting.")
     trusted = ["libm sin cos tan atan atan2 sqrt log exp pow: parameters of the model (structure Trig); the driver uses Lean's Float "
                "functions (same system libm as CPython: outputs were bit-identical on every case explored), the theorems use "
                "Mathlib's Real.sin, Real.cos, Real.sqrt, Real.arctan, Complex.arg, Real.rpow, Real.log, Real.exp"]
@@ -224,8 +155,14 @@ class P(Prop):
             "heights -1000..10000 m incl. both ends; bases: random on the globe, equal to the point, within metres/kilometres of it, "
             "antipodal, near a pole, on the antimeridian, given as GeoCoords or as ECEFCoords; Lambert-93: lon -5..10, lat 41..51; "
             "tracks of 1..5 such points in Geo/ECEF/ENU with operation histories of 1..5 whole-track conversions "
-            "(with and without base argument, SRID 2154, rebasing, error branches). non-trivial = point differs from the base "
-            "(pt), any Lambert point, any track history with at least one legal conversion")
+            "(with and without base argument, SRID 2154, rebasing, error branches); histories (hist) of 3..20 operations on shared "
+            "mutable objects: new / in-place update (setter or attribute; one coordinate or all three; bases already used are favoured) / "
+            "point conversions with bases given as objects, as track positions, as Track.base, as the point itself / tracks built on "
+            "the caller's objects / whole-track conversions, with templates for: one base object serving two places, a base updated "
+            "between the two legs of a round trip, a first track warming a base that a second one uses after an update, ENU tracks built "
+            "on the caller's base object, a base that is a position of the track, copies; 6% end with a refused call; resid: the "
+            "(lat, h) grid of the Geo->ECEF->Geo residual. non-trivial = point differs from the base (pt), any Lambert point, any track "
+            "history with at least one legal conversion, any hist with a conversion that is not refused, any resid block")
 
     def setup(self):
         import tracklib.core.obs_coords as oc
@@ -238,7 +175,9 @@ class P(Prop):
     def exhaustive_scopes(self, tier):
         return ["grid of special points: lon in {-180,-179.999999,-90,-1e-9,0,1e-9,90,179.999999,180} x lat in "
                 "{-89.8999999,-45,-1e-9,0,1e-9,45,89.8999999} x h in {-1000,0,10000}, each with the base equal to the point, "
-                "a near base and a far base"]
+                "a near base and a far base",
+                "residual of Geo->ECEF->Geo at every node of the grid lat = -89.9 + s + i*%s deg (s from the seed), h = -1000 + j*%s m, "
+                "plus the two end latitudes +-89.9" % (("0.5", "500") if tier == "quick" else ("0.02", "50"))]
 
     def rand_geo(self, rng):
         lon = rng.choice([rng.uniform(-180.0, 180.0)] * 6 + [-180.0, 180.0, 0.0, 90.0, -90.0, 179.999999, -179.999999,
@@ -307,6 +246,22 @@ class P(Prop):
             out.append({"kind": "l93", "p": self.rand_france(rng)})
         for _ in range(700 if quick else 9000):
             out.append(self.rand_track(rng))
+        for _ in range(1500 if quick else 20000):
+            out.append(H.rand_hist(self, rng))
+        out += self.resid_blocks(rng, tier)
+        return out
+
+    def resid_blocks(self, rng, tier):
+        """the (latitude, height) grid on which the residual of Geo -> ECEF -> Geo is bounded, cut in blocks of latitudes;
+        the grid is shifted by the seed"""
+        step, hstep, per = (0.5, 500.0, 30) if tier == "quick" else (0.02, 50.0, 40)
+        lat = -89.9 + rng.uniform(0.0, step) * 0.999
+        m = int(11000.0 / hstep) + 1
+        out = [{"kind": "resid", "lat0": -89.9, "dlat": 179.8, "n": 2, "h0": -1000.0, "dh": hstep, "m": m}]   # both ends
+        while lat <= 89.9:
+            n = min(per, int((89.9 - lat) / step) + 1)
+            out.append({"kind": "resid", "lat0": lat, "dlat": step, "n": n, "h0": -1000.0, "dh": hstep, "m": m})
+            lat = lat + per * step
         return out
 
     # ---- tracks
@@ -413,6 +368,9 @@ class P(Prop):
             t["ops"] = ">".join(n + ("" if a is None else "(" + a[0] + ")") for n, a in case["ops"])
             t["legal"] = all(s[0] == "ok" for s in sim(case))
             t["n"] = len(case["pts"])
+        if k == "hist":
+            t.update(H.features(case))
+            t["n_ops"] = min(len(case["ops"]), 16)
         return t
 
     def nontrivial(self, case):
@@ -421,6 +379,9 @@ class P(Prop):
         if case["kind"] == "track":
             s = sim(case)
             return bool(s) and s[0][0] == "ok"
+        if case["kind"] == "hist":
+            return any(op[0] in ("call", "tc", "tif") for op in case["ops"][:-1]) or (
+                bool(case["ops"]) and case["ops"][-1][0] in ("call", "tc", "tif") and not H.static(case).dead)
         return True
 
     # ---------------------------------------------------------------- implementation
@@ -476,6 +437,23 @@ class P(Prop):
                     err = err_kind(e)
                     break
             return {"states": states, "err": err}
+        if k == "hist":
+            return H.Runner(oc, self.Obs, self.Track, self.ObsTime).run(case)
+        if k == "resid":
+            r = {"dlat": 0.0, "at": [0.0, 0.0], "dh": 0.0, "ath": [0.0, 0.0], "lon": 0.0}
+            for i in range(case["n"]):
+                lat = case["lat0"] + float(i) * case["dlat"]
+                for j in range(case["m"]):
+                    h = case["h0"] + float(j) * case["dh"]
+                    q = oc.GeoCoords(0.0, lat, h).toECEFCoords().toGeoCoords()
+                    e1, e2, e0 = abs(q.lat - lat), abs(q.hgt - h), abs(q.lon)
+                    if not e1 <= r["dlat"]:
+                        r["dlat"], r["at"] = e1, [lat, h]
+                    if not e2 <= r["dh"]:
+                        r["dh"], r["ath"] = e2, [lat, h]
+                    if not e0 <= r["lon"]:
+                        r["lon"] = e0
+            return r
         raise ValueError(k)
 
     def state(self, tr):
@@ -515,12 +493,23 @@ class P(Prop):
             pts = ";".join(",".join(fbits(v) for v in p) for p in case["pts"]) or "_"
             ops = " ".join("%s:%s" % (n, self.tok_barg(a)) for n, a in case["ops"])
             return ["C14.track %s %s %s %s" % (case["srid"], pts, self.tok_barg(case["base0"]), ops)]
+        if k == "hist":
+            return [H.request(case)]
+        if k == "resid":
+            return ["C14.resid %s %s %d %s %s %d" % (fbits(case["lat0"]), fbits(case["dlat"]), case["n"],
+                                                     fbits(case["h0"]), fbits(case["dh"]), case["m"])]
 
     def decode(self, case, replies):
         k = case["kind"]
         r = replies[0]
         if r == "bad-request":
             raise ValueError("driver: bad-request")
+        if k == "hist":
+            return H.decode(r)
+        if k == "resid":
+            v = [bitsf(t) for t in r.split()]
+            assert len(v) == 6
+            return {"dlat": v[0], "at": v[1:3], "dh": v[3], "ath": v[4:6]}
         if k == "pt":
             v = [bitsf(t) for t in r.split()]
             assert len(v) == 27
@@ -550,6 +539,18 @@ class P(Prop):
 
     def compare(self, case, impl_out, model_out):
         k = case["kind"]
+        if k == "hist":
+            if "steps" not in impl_out:
+                return "implementation raised %s (%s)" % (impl_out.get("err"), impl_out.get("detail"))
+            return H.compare(case, impl_out, model_out)
+        if k == "resid":
+            if "dlat" not in impl_out:
+                return "implementation raised %s (%s)" % (impl_out.get("err"), impl_out.get("detail"))
+            if not (_c(impl_out["dlat"], model_out["dlat"], 1e-12) and _c(impl_out["dh"], model_out["dh"], 1e-8)):
+                return "largest residuals on the block: impl=(%r deg at %r, %r m at %r) model=(%r deg at %r, %r m at %r)" % (
+                    impl_out["dlat"], impl_out["at"], impl_out["dh"], impl_out["ath"],
+                    model_out["dlat"], model_out["at"], model_out["dh"], model_out["ath"])
+            return None
         if "states" not in impl_out and "err" in impl_out:
             return "implementation raised %s (%s); model=%s" % (impl_out["err"], impl_out.get("detail"), str(model_out)[:200])
         if k == "pt":
@@ -584,6 +585,18 @@ class P(Prop):
     # ---------------------------------------------------------------- oracle (transfer)
     def spec(self, case, out):
         k = case["kind"]
+        if k == "hist":
+            return H.spec(case, out)
+        if k == "resid":
+            if "dlat" not in out:
+                return "conversion raised %s: %s" % (out.get("err"), out.get("detail"))
+            if not out["dlat"] <= TOL_DEG:
+                return "Geo -> ECEF -> Geo of [0.0, %r, %r] returns a latitude off by %r deg" % (out["at"][0], out["at"][1], out["dlat"])
+            if not out["dh"] <= TOL_M:
+                return "Geo -> ECEF -> Geo of [0.0, %r, %r] returns a height off by %r m" % (out["ath"][0], out["ath"][1], out["dh"])
+            if not out["lon"] <= TOL_DEG:
+                return "Geo -> ECEF -> Geo on the meridian 0 returns a longitude off by %r deg (block %r)" % (out["lon"], case)
+            return None
         if "states" not in out and "err" in out:
             return "conversion raised %s: %s" % (out["err"], out.get("detail"))
         if k == "pt":
@@ -713,6 +726,14 @@ class P(Prop):
     # ---------------------------------------------------------------- shrinking / search
     def shrink(self, case):
         k = case["kind"]
+        if k == "hist":
+            yield from H.shrink(case)
+        if k == "resid" and (case["n"] > 1 or case["m"] > 1):
+            # the single worst nodes of the block
+            for i in range(case["n"]):
+                yield dict(case, lat0=case["lat0"] + float(i) * case["dlat"], n=1)
+            for j in range(case["m"]):
+                yield dict(case, h0=case["h0"] + float(j) * case["dh"], m=1)
         if k == "pt":
             p = case["p"]
             if case["b2"] != case["b"]:
@@ -757,6 +778,19 @@ class P(Prop):
         elif k == "l93":
             for _ in range(6):
                 yield {"kind": "l93", "p": self.rand_france(rng)}
+        elif k == "hist":
+            for _ in range(6):
+                yield H.rand_hist(self, rng)
         else:
             for _ in range(6):
                 yield self.rand_track(rng)
+
+
+# ---- tie to the source by translation (tools/py2lean.py -> lean/TracklibVerif/Gen/ObsCoords.lean, regenerated on every run)
+P.tie_modules = ["TracklibVerif.Tie.C14"]
+P.theorems = P.theorems + [
+    ("TracklibVerif.Tie.C14", "TV.Tie.C14.tie_geoToEcef", "whenever the Lean translation of the CURRENT source of GeoCoords.toECEFCoords returns, it returns the model's geoToEcef (all inputs; integer literals 1, 2 = 1.0, 2.0)"),
+    ("TracklibVerif.Tie.C14", "TV.Tie.C14.tie_ecefToEnu", "whenever the translation of the CURRENT source of ECEFCoords.toENUCoords returns, it returns the model's ecefToEnu (base.toECEFCoords() read as the model's base.toEcef)"),
+    ("TracklibVerif.Tie.C14", "TV.Tie.C14.tie_enuToEcef", "whenever the translation of the CURRENT source of ENUCoords.toECEFCoords returns, it returns the model's enuToEcef (base.toECEFCoords() read as the model's base.toEcef)"),
+    ("TracklibVerif.Tie.C14", "TV.Tie.C14.tie_ecefToGeo", "whenever the translation of the CURRENT source of ECEFCoords.toGeoCoords returns, it returns the model's ecefToGeo (all inputs; integer literals 1, 2, 3 = 1.0, 2.0, 3.0)"),
+]
